@@ -10,6 +10,7 @@
 package c02
 
 import (
+	"bytes"
 	"fmt"
 	"go/constant"
 	"sort"
@@ -83,6 +84,60 @@ func buildRun(src string, run bool) built {
 		b.badSep = true
 	}
 	return b
+}
+
+// renderTemplate builds and runs a one-file text template.
+func renderTemplate(src string) (out string, b built) {
+	var tmpl *scriggo.Template
+	val, panicked, stack := core.Guard(func() {
+		tmpl, b.buildErr = scriggo.BuildTemplate(scriggo.Files{"index.txt": []byte(src)}, "index.txt", nil)
+	})
+	if panicked {
+		b.panicked, b.panicVal, b.stack = true, val, stack
+		return
+	}
+	if b.buildErr != nil {
+		_, b.isBuildErr = b.buildErr.(*scriggo.BuildError)
+		return
+	}
+	b.accepted = true
+	var buf bytes.Buffer
+	val, panicked, stack = core.Guard(func() { b.runErr = tmpl.Run(&buf, nil, nil) })
+	if panicked {
+		b.panicked, b.panicVal, b.stack = true, val, stack
+	}
+	return buf.String(), b
+}
+
+// checkTemplate repeats the declaration inside a template: `{%% const c = E %%}`
+// must be accepted exactly when the reference accepts the declaration, and the
+// probes, shown with {{ }}, must render as "true".
+func (w *worker) checkTemplate(form, decl string, accepted bool, probes []string) {
+	var sb strings.Builder
+	sb.WriteString("{%% " + decl + " %%}")
+	for _, p := range probes {
+		sb.WriteString("{{ " + p + " }};")
+	}
+	src := sb.String()
+	out, b := renderTemplate(src)
+	w.evals++
+	w.counts["template_builds"]++
+	switch {
+	case b.panicked:
+		w.violation("%s/template: scriggo panicked: %v\ntemplate: %s\n%s", form, b.panicVal, src, core.Truncate(b.stack, 1500))
+	case !b.accepted && !b.isBuildErr:
+		w.violation("%s/template: BuildTemplate failed with %T (not *scriggo.BuildError): %v\ntemplate: %s", form, b.buildErr, b.buildErr, src)
+	case accepted && !b.accepted:
+		w.violation("%s/template: the reference accepts the declaration, BuildTemplate rejects it: %v\ntemplate: %s", form, b.buildErr, src)
+	case !accepted && b.accepted:
+		w.violation("%s/template: the reference rejects the declaration, BuildTemplate accepts it\ntemplate: %s", form, src)
+	case accepted:
+		if b.runErr != nil {
+			w.violation("%s/template: Run returned %v\ntemplate: %s", form, b.runErr, src)
+		} else if want := strings.Repeat("true;", len(probes)); out != want {
+			w.violation("%s/template: rendered %q, want %q (exactness probes built from the go/constant value)\ntemplate: %s", form, out, want, src)
+		}
+	}
 }
 
 type worker struct {
@@ -171,6 +226,9 @@ func (w *worker) checkDecl(form, decl string) {
 	if !both {
 		w.counts["both_reject"]++
 		w.sig(formClass(form), "reject", errClass(ga.FirstError()))
+		if w.tmplTick(decl) {
+			w.checkTemplate(form, decl, false, nil)
+		}
 		return
 	}
 	w.counts["both_accept"]++
@@ -234,6 +292,13 @@ func (w *worker) checkDecl(form, decl string) {
 			}
 		}
 	}
+	if w.tmplTick(decl) {
+		var probes []string
+		for _, e := range exact {
+			probes = append(probes, strings.TrimSuffix(strings.TrimPrefix(e, "println("), ")"))
+		}
+		w.checkTemplate(form, decl, true, probes)
+	}
 	if w.compareOutput(form+"/value", srcB, gb, sb) {
 		w.counts["values_compared"]++
 		cls := valueClass(v)
@@ -290,6 +355,19 @@ func (w *worker) bigFloatDomain(form, decl string, ga *gotypes.Result, sa built)
 		return
 	}
 	w.counts["bigfloat_domain_value_diff_within_1e-12"]++
+}
+
+// tmplTick selects (deterministically, by content) one declaration in four for
+// the additional template observation.
+func (w *worker) tmplTick(decl string) bool {
+	if strings.Contains(decl, "%%}") || strings.Contains(decl, "`") {
+		return false
+	}
+	h := 0
+	for i := 0; i < len(decl); i++ {
+		h = h*31 + int(decl[i])
+	}
+	return h&3 == 0
 }
 
 func formClass(form string) string {
